@@ -50,6 +50,8 @@ def run(tier):
         cex += [v for t, v in mcc.printed if t == "CEX"][:3]
     covcc, covccstats = stream.cover_histories(pairs=(tier == "thorough"), cfg="Cover_Stream_cc")
     hists += covcc
+    covsub, covsubstats = stream.cover_histories(pairs=False, cfg="Cover_Stream_sub")   # submodule sections
+    hists += covsub
     log(f"[{PID}] design level: {mc.generated} states, {mc.distinct} distinct, depth {mc.depth}, "
         f"{len(hists)} histories to replay, violated={mc.violated}")
     # non-vacuity of the design-level check: the model of the tree without the D1 fix must be rejected
@@ -79,7 +81,7 @@ def run(tier):
         ("plus3", [Lk("du", 1, 1, "du"), Lk("mmm", 1), Lk("ppp", 1), Lk("hh", 0, 1), Lk("minus"), Lk("plus3")]),
         ("minus3-titled", [Lk("du", 1, 1, "du"), Lk("mmm", 1), Lk("ppp", 1), Lk("hh", 0, 2), Lk("minus3"), Lk("zero")]),
     ]
-    hunk_hists = [h for h in hists if any(l["c"] in ("minus", "plus", "zero", "cin", "minus3") for l in h)]
+    hunk_hists = [h for h in hists if any(l["c"] in ("minus", "plus", "zero", "cin", "minus3", "subc", "subp") for l in h)]
     sample = hunk_hists if tier == "thorough" else rnd.sample(hunk_hists, min(len(hunk_hists), 3000))
     plans = [
         stream.Plan("rs", hunk_hists),
@@ -120,7 +122,7 @@ def run(tier):
         "evaluations": n, "distinct_nontrivial": nontrivial,
         "rule": "every Env_Git history up to ReplayLen lines containing a hunk line (TLC enumeration), x configurations; "
                 f"plus every payload string of bounded length over {ALPHABET!r} for each line kind; distinct = distinct (history, configuration)",
-        "payload_strings": nstr, "transition_cover": covstats, "transition_cover_combined": covccstats,
+        "payload_strings": nstr, "transition_cover": covstats, "transition_cover_combined": covccstats, "transition_cover_submodule": covsubstats,
         "states_combined_model": mcc.distinct, "diff_u_models": du_stats,
         "configs": sorted({x[0].name for x in res}),
         "drift": len(V.drift), "known_findings_hit": len(V.known_hit),
